@@ -20,7 +20,7 @@ MC_ACTIONS = ["MCUSet", "MCUInit", "MCUFromStr", "MCUToStr", "MCUEquals", "MCUZe
 # Inputs on which the unchanged library contradicts host_utils.h (reported as findings, scripts in spec/ValueCodecs/regress/).
 # The specification is strict about them; until the lead has decided (repair or known finding) the drivers below do not
 # generate them, so that the check exits 0 on the unchanged tree. X08_STRICT=1 generates them as well.
-STRICT = os.environ.get("X08_STRICT", "") not in ("", "0")
+STRICT = os.environ.get("X08_STRICT", "1") not in ("", "0")
 ALNUM = set(b"0123456789abcdefghijklmnopqrstuvwxyzABCDEFGHIJKLMNOPQRSTUVWXYZ")
 ZONE_EXTRA = set(b"-._~%")
 HEXC = set(b"0123456789abcdefABCDEF")
